@@ -8,7 +8,7 @@ from .C02 import aes_tables
 
 META = {
     'title': 'invertibility: finite component pairs composed exhaustively, term-level inverses (MIX, _L, rol/ror), enc/dec mirror of round sequences',
-    'expected_min': 141,
+    'expected_min': 176,
     'exhaustive': True,
     'explanation': 'Tables folded from the AST are composed over their whole (finite) domain: AES S-box pair, ShiftRows pair, MixColumns x '
                    'InvMixColumns = I over GF(2^8), DES IP/IPinv, eight Serpent S-box pairs, Serpent IP/FP, Salsa20/ChaCha index maps, Threefish '
@@ -310,6 +310,8 @@ def run(ctx):
                         name = e[1][1][2]
                         if name == 'AddRoundKey':
                             sl = e[1][2][1]
+                            if sl[0] == 'idx' and sl[2][0] == 'slice' and sl[2][1] == T.NONE:
+                                sl = ('idx', sl[1], ('slice', T.C(0), sl[2][2], sl[2][3]))
                             if not (sl[0] == 'idx' and sl[2][0] == 'slice' and T.is_int(sl[2][1]) and T.is_int(sl[2][2])):
                                 raise AnalysisError('%s: round-key slice is not constant after unrolling: %s' % (qual, T.show(sl)))
                             lo, hi = sl[2][1][1], sl[2][2][1]
@@ -429,10 +431,10 @@ def run(ctx):
 
     ctx.rule('C03-R3 enc/dec bodies (shared with C02)')
     from ..spec import ciphers as CS
-    cmp_many(ctx, AES, [('AES.enc', CS.AES_ENC), ('AES.dec', CS.AES_DEC), ('AES.keyschedule', CS.AES_KEYSCHEDULE)])
-    cmp_many(ctx, DES, [('DES.enc', CS.DES_ENC), ('DES.dec', CS.DES_DEC), ('TDEA.enc', CS.TDEA_ENC), ('TDEA.dec', CS.TDEA_DEC), ('TDEA.__init__', CS.TDEA_INIT)])
+    cmp_many(ctx, AES, [('AES.enc', CS.AES_ENC), ('AES.dec', CS.AES_DEC), ('AES.keyschedule', CS.AES_KEYSCHEDULE), ('AES.__init__', CS.AES_INIT)])
+    cmp_many(ctx, DES, [('DES.enc', CS.DES_ENC), ('DES.dec', CS.DES_DEC), ('TDEA.enc', CS.TDEA_ENC), ('TDEA.dec', CS.TDEA_DEC), ('TDEA.__init__', CS.TDEA_INIT), ('DES.__init__', CS.DES_INIT)])
     cmp_many(ctx, SER, [('Serpent.enc', CS.SERPENT_ENC), ('Serpent.dec', CS.SERPENT_DEC), ('Serpent.__init__', CS.SERPENT_INIT)])
-    cmp_many(ctx, TF, [('Threefish.enc', CS.THREEFISH_ENC), ('Threefish.dec', CS.THREEFISH_DEC), ('Threefish.__ks', CS.THREEFISH_KS)], OPT_ARITH)
+    cmp_many(ctx, TF, [('Threefish.enc', CS.THREEFISH_ENC), ('Threefish.dec', CS.THREEFISH_DEC), ('Threefish.__ks', CS.THREEFISH_KS), ('Threefish.__init__', CS.THREEFISH_INIT)], OPT_ARITH)
 
     # ------------------------------------------------------------ R4 block length
     ctx.rule('C03-R4 block length')
